@@ -971,6 +971,13 @@ impl Exec for AbtExec {
                 let Some(feed) = feed else { return StepOut::bad() };
                 let (line, tag) = trace_line(&self.obj, call, feed);
                 let mut so = StepOut::obs(line);
+                // C18 on a single call, whatever it is fed: a reader touches no lock, ever
+                if matches!(call, Call::Snapshot | Call::Unlocked) {
+                    let l = so.obs[0].clone();
+                    if l.split(';').any(|p| p.starts_with("lock") || p.starts_with("trylock") || p.starts_with("want:lock") || p.starts_with("want:trylock") || p.starts_with("unlock") || p.starts_with("clear_poison")) {
+                        so.violations.push(format!("C18 snapshot performs a lock operation (trace {})", if l.len() > 120 { &l[l.len() - 120..] } else { &l }));
+                    }
+                }
                 so.tags.push(format!("trace_{}_{}", fmt_call(call).split(' ').next().unwrap(), tag));
                 so
             }
